@@ -24,6 +24,9 @@ pub enum TOp {
     /// without having anything to do (create_dir_all on an existing directory): all three
     /// timestamps, length and type must be what they were
     Idle(u8, u8),
+    /// open a read handle, read a few bytes, set a timestamp, drop the handle: closing a reader is
+    /// not a change of the entry
+    SetWhileReading(u8, u8, u16, u8),
 }
 
 #[derive(Clone, Debug)]
@@ -85,6 +88,7 @@ fn top_strategy() -> impl Strategy<Value = TOp> {
         2 => (any::<u8>(), data_strategy()).prop_map(|(e, d)| TOp::Append(e, d)),
         2 => (any::<u8>(), any::<u8>(), any::<u16>(), data_strategy()).prop_map(|(e, f, t, d)| TOp::SetDuring(e, f, t, d)),
         3 => (any::<u8>(), any::<u8>()).prop_map(|(e, k)| TOp::Idle(e, k)),
+        2 => (any::<u8>(), any::<u8>(), any::<u16>(), any::<u8>()).prop_map(|(e, f, t, n)| TOp::SetWhileReading(e, f, t, n)),
     ]
 }
 
@@ -137,6 +141,7 @@ fn test(case: &Case, st: &mut Stats, counting: bool) -> CaseResult {
     let mut idle_total = 0usize;
     let mut extreme_total = 0usize;
     let mut reader_total = 0usize;
+    let mut reader_set_total = 0usize;
     let r = guarded(|| -> Result<(), (usize, String)> {
         let e0 = |m: String| (0usize, m);
         let n = case.cfg.overlay_layers();
@@ -170,6 +175,7 @@ fn test(case: &Case, st: &mut Stats, counting: bool) -> CaseResult {
         let mut st_during = 0usize;
         let mut st_idle = 0usize;
         let mut st_reader = 0usize;
+        let mut st_reader_set = 0usize;
         for (i, op) in case.ops.iter().enumerate() {
             let step = i + 1;
             match op {
@@ -322,6 +328,46 @@ fn test(case: &Case, st: &mut Stats, counting: bool) -> CaseResult {
                     sessions_at.entry(path).or_default().push(step);
                     st_during += 1;
                 }
+                TOp::SetWhileReading(e, f, t, nread) => {
+                    let files: Vec<&str> = ENTRIES.iter().filter(|(_, d)| !*d).map(|(p, _)| *p).collect();
+                    let path = files[idx((*e as u16) << 8, files.len())];
+                    let p = at(&root, path).map_err(|e| (step, e.to_string()))?;
+                    let field = match f % 3 {
+                        0 if base == "mem" => TimeField::Created,
+                        1 => TimeField::Modified,
+                        _ => TimeField::Accessed,
+                    };
+                    let (secs, nanos) = times[idx(*t, times.len())];
+                    let when = time_of(secs, nanos);
+                    let mut h = p.open_file().map_err(|e| (step, e.to_string()))?;
+                    let mut buf = vec![0u8; (*nread % 17) as usize];
+                    let got = h.read(&mut buf).map_err(|e| (step, e.to_string()))?;
+                    let before = m_of(&p.metadata().map_err(|e| (step, e.to_string()))?);
+                    let r = match field {
+                        TimeField::Created => p.set_creation_time(when),
+                        TimeField::Modified => p.set_modification_time(when),
+                        TimeField::Accessed => p.set_access_time(when),
+                    };
+                    trace.push(format!("read handle open on '{}' ({} bytes read): set {:?} to {}s+{}ns -> {:?}, then drop the handle", path, got, field, secs, nanos, r.as_ref().map_err(|e| classify(e.kind()))));
+                    r.map_err(|e| (step, format!("set {:?} of '{}' (supported) failed while a read handle is open: {}", field, path, e)))?;
+                    let mut expect = before.clone();
+                    match field {
+                        TimeField::Created => expect.created = Some(when),
+                        TimeField::Modified => expect.modified = Some(when),
+                        TimeField::Accessed => expect.accessed = Some(when),
+                    }
+                    let mid = m_of(&p.metadata().map_err(|e| (step, e.to_string()))?);
+                    if mid != expect {
+                        return Err((step, format!("set {:?} of '{}' while a read handle is open: metadata went from {:?} to {:?}", field, path, before, mid)));
+                    }
+                    drop(h);
+                    let end = m_of(&p.metadata().map_err(|e| (step, e.to_string()))?);
+                    if end != expect {
+                        return Err((step, format!("{:?} of '{}' was set to {:?} while a read handle was open; dropping that handle changed the metadata from {:?} to {:?}", field, path, when, mid, end)));
+                    }
+                    fields_set.entry(path).or_default().push((field, step));
+                    st_reader_set += 1;
+                }
                 TOp::Write(e, d) | TOp::Append(e, d) => {
                     let files: Vec<&str> = ENTRIES.iter().filter(|(_, d)| !*d).map(|(p, _)| *p).collect();
                     let path = files[idx((*e as u16) << 8, files.len())];
@@ -388,6 +434,7 @@ fn test(case: &Case, st: &mut Stats, counting: bool) -> CaseResult {
         facts.5 = st_during;
         idle_total = st_idle;
         reader_total = st_reader;
+        reader_set_total = st_reader_set;
         for (p, sets) in &fields_set {
             let kinds: std::collections::BTreeSet<TimeField> = sets.iter().map(|(f, _)| *f).collect();
             if kinds.len() >= 2 {
@@ -421,6 +468,7 @@ fn test(case: &Case, st: &mut Stats, counting: bool) -> CaseResult {
                 st.label_n("failing_or_idle_calls_verified", idle_total as u64);
                 st.label_n("setters_with_range_end_values(memory)", extreme_total as u64);
                 st.label_n("write_sessions_with_live_reader", reader_total as u64);
+                st.label_n("setters_while_a_read_handle_is_open_verified", reader_set_total as u64);
                 if case.both && case.cfg.overlay_layers() >= 2 {
                     st.label("directories_present_in_upper_and_lowest_layer");
                 }
@@ -441,6 +489,7 @@ fn ops_to_json(ops: &[TOp]) -> Value {
         TOp::Append(e, d) => json!(["append", e, crate::hist::data_to_json(d)]),
         TOp::SetDuring(e, f, t, d) => json!(["during", e, f, t, crate::hist::data_to_json(d)]),
         TOp::Idle(e, k) => json!(["idle", e, k]),
+        TOp::SetWhileReading(e, f, t, n) => json!(["reading", e, f, t, n]),
     }).collect())
 }
 
@@ -451,6 +500,7 @@ fn ops_from_json(v: &Value) -> Vec<TOp> {
         match x.first()?.as_str()? {
             "set" => Some(TOp::Set(u(1)? as u8, u(2)? as u8, u(3)? as u16, u(4)? as u32)),
             "idle" => Some(TOp::Idle(u(1)? as u8, u(2)? as u8)),
+            "reading" => Some(TOp::SetWhileReading(u(1)? as u8, u(2)? as u8, u(3)? as u16, u(4)? as u8)),
             "write" => Some(TOp::Write(u(1)? as u8, crate::hist::data_from_json(x.get(2)?)?)),
             "during" => Some(TOp::SetDuring(u(1)? as u8, u(2)? as u8, u(3)? as u16, crate::hist::data_from_json(x.get(4)?)?)),
             _ => Some(TOp::Append(u(1)? as u8, crate::hist::data_from_json(x.get(2)?)?)),
@@ -469,7 +519,7 @@ pub fn replay(v: &Value) -> CaseResult {
     test(&case, &mut st, false)
 }
 
-const RULE: &str = "time values from {epoch, +-1s, +-1e9, +-2e9, 2^31 boundary, 4e9, 1e10, 1.5e10 s} x {0,1,999999999,5e8,123456789,1000 ns} plus random sub-second parts, filtered at start-up by RAW OS calls to what the scratch filesystem round-trips exactly; the three setters in random order and repetition on two files, two directories and the filesystem's root directory (memory-backed stacks also get the ends of the SystemTime range), interleaved with create and append sessions (a quarter of them while a read handle on the same file is alive) and with calls on the entry that fail by contract or have nothing to do (create_dir / create_file / append_file on an existing directory, create_dir_all on it, create_dir / read_dir / remove_dir on a file): those must leave all three timestamps, length and type untouched; stacks Mem/Phys/altroot/overlay (entry in the upper layer; in half of the overlay cases the directories also exist in the lowest layer and /f0 exists there with other bytes) incl. nesting; oracle: metadata immediately before/after each setter: Ok => set field exact, the two other timestamps, length and type unchanged, bytes unchanged; unsupported (creation time over PhysicalFS) => NotSupported and metadata unchanged; supported setters must succeed; MemoryFS append keeps created; altroot/overlay report the timestamps of the served entry; non-trivial = >=2 different fields set on one entry with a write/append session between, and a value with a non-zero sub-second part";
+const RULE: &str = "time values from {epoch, +-1s, +-1e9, +-2e9, 2^31 boundary, 4e9, 1e10, 1.5e10 s} x {0,1,999999999,5e8,123456789,1000 ns} plus random sub-second parts, filtered at start-up by RAW OS calls to what the scratch filesystem round-trips exactly; the three setters in random order and repetition on two files, two directories and the filesystem's root directory (memory-backed stacks also get the ends of the SystemTime range), interleaved with create and append sessions (a quarter of them while a read handle on the same file is alive), with setters issued while a read handle that has delivered 0..16 bytes is open (dropping the reader afterwards must change nothing) and with calls on the entry that fail by contract or have nothing to do (create_dir / create_file / append_file on an existing directory, create_dir_all on it, create_dir / read_dir / remove_dir on a file): those must leave all three timestamps, length and type untouched; stacks Mem/Phys/altroot/overlay (entry in the upper layer; in half of the overlay cases the directories also exist in the lowest layer and /f0 exists there with other bytes) incl. nesting; oracle: metadata immediately before/after each setter: Ok => set field exact, the two other timestamps, length and type unchanged, bytes unchanged; unsupported (creation time over PhysicalFS) => NotSupported and metadata unchanged; supported setters must succeed; MemoryFS append keeps created; altroot/overlay report the timestamps of the served entry; non-trivial = >=2 different fields set on one entry with a write/append session between, and a value with a non-zero sub-second part";
 
 pub fn run(ctx: &RunCtx) -> i32 {
     let usable = usable_times().len();
